@@ -562,8 +562,16 @@ class Gen(object):
         if code_ok and r.random() < 0.2:
             # gettext calls in template code: extracted by extract_from_code, looked up through the
             # functions the harness puts into the template data
-            if r.random() < 0.7:
+            q = r.random()
+            if q < 0.6:
                 return ['x', "_('%s')" % r.choice(WORDS[:14])]
+            if q < 0.7:
+                # a gettext call nested in the argument of another one (extract_from_code as repaired:
+                # the arguments of a gettext call are searched as well)
+                return ['x', "ngettext('%s', '%s', len(_('%s')))" % (r.choice(WORDS[:14]), r.choice(WORDS[:14]), r.choice(WORDS[:14]))]
+            if q < 0.78:
+                # a literal numeral (extract_from_code as repaired: a non-string literal is no string)
+                return ['x', "ngettext('%s', '%s', %s)" % (r.choice(WORDS[:14]), r.choice(WORDS[:14]), r.choice(['1', '2']))]
             return ['x', "ngettext('%s', '%s', %s)" % (r.choice(WORDS[:14]), r.choice(WORDS[:14]), r.choice(NUM_VARS))]
         return ['x', self.svar()]
 
